@@ -4,6 +4,7 @@ import json, os, sys
 ROOT = os.path.dirname(os.path.dirname(os.path.abspath(__file__)))
 sys.path.insert(0, ROOT)
 from vf import props, texts
+props.load_plans()
 
 ALL = ['C%02d' % i for i in range(1, 21)]
 checks = []
